@@ -44,25 +44,33 @@ def oracle(case, rec):
     e1 = np.asarray(case['e1'], dtype=float)
     e2 = np.asarray(case['e2'], dtype=float)
     mode = case['mode']
+    adt = case.get('adtype', 'f8')
+    if adt != 'f8':
+        # amplitudes as stored by the caller: integer counts (scaled and rounded) or single precision; the brute force sums
+        # the exact stored values in float64
+        a2 = np.round(a2 * case.get('again', 1.0)) if adt[0] == 'i' else a2.astype(np.float32).astype(float)
+    astored = a2.astype({'f8': np.float64, 'f4': np.float32, 'i8': np.int64, 'i4': np.int32, 'i2': np.int16}[adt])
+    rec.cls('amplitude-dtype=' + adt)
+    rt = 1e-4 if adt == 'f4' else 1e-12       # float32 amplitudes: numpy squares and sums them in single precision
     H = brute(f1, f2, a2, e1, e2, mode)
-    scale = 1e-12 * (1 + np.abs(H).sum())
+    scale = rt * (1 + np.abs(H).sum())
     outs = {}
     lay = case.get('layout', 'C')
     if case.get('dtype', 'f8') == 'f4':      # single-precision frequencies: the brute force works on the exact stored values
         f1 = f1.astype(np.float32).astype(float)
         f2 = f2.astype(np.float32).astype(float)
         H = brute(f1, f2, a2, e1, e2, mode)
-        scale = 1e-12 * (1 + np.abs(H).sum())
+        scale = rt * (1 + np.abs(H).sum())
     rec.cls('dtype=' + case.get('dtype', 'f8'))
     ft_ = np.float32 if case.get('dtype', 'f8') == 'f4' else np.float64
-    ins = [gens.relayout(f1.astype(ft_), lay), gens.relayout(f2.astype(ft_), lay), gens.relayout(a2.copy(), lay)]   # what the routine gets
+    ins = [gens.relayout(f1.astype(ft_), lay), gens.relayout(f2.astype(ft_), lay), gens.relayout(astored.copy(), lay)]   # what the routine gets
     rec.cls('layout=' + lay)
     for sq in (False, 'sum', 'mean'):
         try:
             outs[sq] = np.asarray(emd.spectra.holospectrum(ins[0], ins[1], ins[2], e1.copy(), e2.copy(), mode=mode, squash_time=sq))
         except Exception as e:
             raise Violation('C11/raises/%s/squash=%s' % (type(e).__name__, sq), repr(e))
-    if not all(np.array_equal(x, y) for x, y in zip(ins, (f1.astype(ft_), f2.astype(ft_), a2))):
+    if not all(np.array_equal(x, y) for x, y in zip(ins, (f1.astype(ft_), f2.astype(ft_), astored))):
         raise Violation('C11/input-modified', '')
     exp = {False: H, 'sum': H.sum(axis=0), 'mean': H.mean(axis=0)}
     oor1 = bool(((f1 < e1[0]) | (f1 >= e1[-1])).any())
@@ -72,7 +80,7 @@ def oracle(case, rec):
     for sq in (False, 'sum', 'mean'):
         if outs[sq].shape != exp[sq].shape:
             raise Violation('C11/shape/squash=%s' % sq, 'got %r expected %r' % (outs[sq].shape, exp[sq].shape))
-        if not np.allclose(outs[sq], exp[sq], rtol=1e-12, atol=scale):
+        if not np.allclose(outs[sq], exp[sq], rtol=rt, atol=scale):
             raise Violation('C11/vs-bruteforce/squash=%s/%s' % (sq, tag),
                             'f1=%r f2=%r e1=%r e2=%r got %r expected %r' % (f1.tolist()[:4], f2.tolist()[:4], e1.tolist()[:6], e2.tolist()[:6],
                                                                             outs[sq].tolist()[:3], exp[sq].tolist()[:3]))
@@ -127,7 +135,9 @@ def random_case(draw):
     return {'f1': vals((T, M), e1, lo1, hi1), 'f2': vals((T, M, K), e2, lo2, hi2),
             'a2': np.round((rng.random((T, M, K)) - draw(st.sampled_from([0.0, 0.0, 0.0, 0.3, 1.0]))) * 3, 4), 'e1': e1, 'e2': e2,
             'mode': draw(st.sampled_from(['energy', 'amplitude'])), 'layout': draw(st.sampled_from(gens.LAYOUTS)),
-            'dtype': draw(st.sampled_from(['f8', 'f8', 'f4']))}
+            'dtype': draw(st.sampled_from(['f8', 'f8', 'f4'])),
+            'adtype': draw(st.sampled_from(['f8', 'f8', 'f8', 'i8', 'i4', 'i2', 'f4'])),
+            'again': draw(st.sampled_from([1.0, 100.0, 9000.0]))}
 
 
 CLAUSES = [
